@@ -49,6 +49,12 @@
 // plugin directory is the only entry of the root and the root the only entry of each ancestor up
 // to the case directory), so that whatever is done to an emptied container shows in the snapshot.
 //
+// Environment seam: in the fourth pre-state the plugin is absent from the root while PATH, the default
+// plugin directory (dir.UserLibexecDir), XDG_CONFIG_HOME and HOME of the process offer one of that name
+// (set per case under a mutex; otherwise PATH is an empty directory). Collisions by construction: for
+// names that may be served the root also holds neighbour plugins called <name>.new/.old/.tmp/.bak/...,
+// .<name>, tmp-<name>, case variants, trailing dot/blank.
+//
 // Evidence only ("recorded:" outcome classes, never a violation): what config.AddPlugin and the
 // verifier make of the manager's refusal, a stale "found" answer for a plugin that is gone,
 // duplicates in a listing, plugins run by List, files created directly in the root.
